@@ -1,7 +1,6 @@
 import Carquet.Util
 import Carquet.Impl.Reader
 import Carquet.Impl.FileReal
-import Carquet.Impl.Sink
 import Carquet.Spec.FileEnvelope
 import Driver.ReadBack
 import Driver.Ops.FileWrite
@@ -18,10 +17,8 @@ Driver/Ops/FileWrite through Driver/ReadBack):
       tie: model open error (with its code) <-> `sum=open-error_code_..`; when opened, nrg / nc equal.
       p_safe is the property predicate (C side).  Lines without `file=` (> 6000 bytes) carry
       only the C-side predicate.
-  sink <case> kind=<k> k=<budget> buf=<b> | st=.. sunk=.. failed=..   harness/ops_c18.c
-      tie (bufmode 0 only: every fwrite is pushed to the sink at once): the statuses and the
-      bytes sunk predicted from Impl.Writer's write calls over Impl.Sink with the oracle the
-      fault schedule defines; other buffer modes carry the C-side predicates only.
+  sink / sinkok lines of harness/ops_c18.c are judged in Driver/Ops/Sink.lean (the model
+      Impl.WriterSink is run in the harness's environment).
   abort <case> at=<i> | removed=.. p_no_file=..                        C-side predicate only
 -/
 namespace Driver.Ops.FileRead
@@ -65,99 +62,6 @@ def fieldAfter (s key : String) : Option Nat :=
   | _ :: rest :: _ => ((rest.splitOn "_").headD "").toNat?
   | _ => none
 
-/-! ### sink prediction (unbuffered stream)
-
-With `setvbuf(_IONBF)` every non-empty `fwrite` of the writer is one operation of the harness's
-sink.  The healthy sequence of `fwrite`s per API call comes from Impl.Writer (`W.out` after each
-step, `close`); the fault schedule of harness `sink_write` decides which operation fails:
-  kind 0  byte budget `k`: the write during which the budget runs out sinks what is left and fails,
-          every later non-empty write fails;
-  kind 1  the sink fails from operation `k` on;
-  kind 4  operation `k` fails once (nothing sunk), later ones succeed.
-What the writer does after a failed `fwrite` (file_writer.c): a failed header magic leaves
-`header_written` false, so every later call retries it first; a failed row-group write leaves the
-row group current, so later batches go on into it, a later `new_row_group`/`close` writes it again;
-`close` additionally fails on the stream's sticky error indicator (fix af51bb2). -/
-
-/-- the non-empty writes each API call makes on a healthy stream: one list per op, then close -/
-def callChunks (D : Writer.Deps) (cols : List Writer.Col) (codec page : Nat) (ops : List Writer.Op) : List (List Nat) :=
-  let w0 : Writer.W := { cols := cols, codec := codec, pageSize := page, createdBy := "Carquet" }
-  let rec go (w : Writer.W) (ops : List Writer.Op) (acc : List (List Nat)) : List (List Nat) :=
-    match ops with
-    | [] => acc ++ [(((Writer.close D w).1.drop w.out.length).map List.length).filter (· > 0)]
-    | op :: rest =>
-      let w' := (Writer.step D w op).1
-      go w' rest (acc ++ [((w'.out.drop w.out.length).map List.length).filter (· > 0)])
-  go w0 ops []
-
-inductive CallKind | batch | newRg | close
-  deriving DecidableEq
-
-/-- index of the failing operation (in the healthy sequence) and the bytes sunk, if the schedule
-makes one fail -/
-def failingOp (kind k : Nat) (sizes : List Nat) : Option Nat × Nat :=
-  if kind == 0 then
-    let rec scan (i cum : Nat) (l : List Nat) : Option Nat × Nat :=
-      match l with
-      | [] => (none, cum)
-      | n :: rest => if cum + n > k then (some i, k) else scan (i + 1) (cum + n) rest
-    scan 0 0 sizes
-  else if k < sizes.length then (some k, (sizes.take k).sum) else (none, sizes.sum)
-
-/-- statuses of all calls (ops then close) for the unbuffered stream -/
-def predictStatuses (kind k : Nat) (kinds : List CallKind) (chunks : List (List Nat)) : List Nat × Nat × Bool :=
-  let flat : List (Nat × Nat) := (chunks.zipIdx.flatMap (fun p => p.1.map (fun n => (p.2, n))))
-  match failingOp kind k (flat.map (·.2)) with
-  | (none, sunk) => (kinds.map (fun _ => 0), sunk, false)
-  | (some f, sunk) =>
-    let c := (flat.getD f (0, 0)).1
-    let headerFailed := f == 0
-    let st := kinds.zipIdx.map (fun p =>
-      if p.2 < c then 0
-      else if p.2 == c then 13
-      else if kind == 4 then (if p.1 == .close then 13 else 0)
-      else if headerFailed then 13
-      else match p.1 with
-        | .batch => 0
-        | .newRg => 13
-        | .close => 13)
-    (st, sunk, true)
-
-def handleSink (l : Line) : Verdict :=
-  match Driver.Ops.FileWrite.parseCase l, l.inNat "kind", l.inNat "k", l.inNat "buf", l.outStr "st", l.outNat "sunk", l.outNat "failed" with
-  | some c, some kind, some k, some buf, some stS, some sunk, some failed =>
-    if buf != 0 || !(kind == 0 || kind == 1 || kind == 4) || !(Driver.Ops.FileWrite.modelledCodec c.codec) then verdict [] []
-    else
-      match parseList String.toNat? stS with
-      | none => verdict [("writer_created", false)] []
-      | some st =>
-        let D := Impl.FileReal.deps []
-        let healthy := (Writer.fileOf D c.cols c.codec c.page "Carquet" c.ops).2
-        if !(healthy.all (· == .ok)) then verdict [] []
-        else
-          let chunks := callChunks D c.cols c.codec c.page c.ops
-          let kinds := c.ops.map (fun o => match o with | .batch _ => CallKind.batch | .newRowGroup => CallKind.newRg) ++ [CallKind.close]
-          let pred := predictStatuses kind k kinds chunks
-          -- Impl.Sink's session on the same schedule: its close status must be the real one
-          let flatSizes := chunks.flatten
-          let fo := (failingOp kind k flatSizes).1
-          let oracle : Sink.Oracle := fun i =>
-            match fo with
-            | none => .push 1000000000
-            | some f => if i == f then .fail 1000000000 0 else if kind != 4 && i > f then .fail 1000000000 0 else .push 1000000000
-          let w0 : Writer.W := { cols := c.cols, codec := c.codec, pageSize := c.page, createdBy := "Carquet" }
-          let calls := (c.ops.foldl (fun (acc : Writer.W × List (List Writer.Bytes)) op =>
-              let w' := (Writer.step D acc.1 op).1
-              (w', acc.2 ++ [w'.out.drop acc.1.out.length])) (w0, [])).2
-          let wEnd := c.ops.foldl (fun w op => (Writer.step D w op).1) w0
-          let closeWrites := (Writer.close D wEnd).1.drop wEnd.out.length
-          let sess := Sink.session oracle false closeWrites {} 0 calls
-          let sinkClose := match sess.2.2 with | .ok => 0 | .fileWrite => 13
-          verdict ([("sink_statuses", pred.1 == st), ("sink_failed", (if pred.2.2 then 1 else 0) == failed),
-                    ("sink_model_close_status", some sinkClose == st.getLast?)] ++
-                   (if kind == 4 then [] else [("sink_bytes", pred.2.1 == sunk)])) []
-  | _, _, _, _, _, _, _ => .bad "sink args"
-
 def handleTrunc (l : Line) : Verdict :=
   match l.outStr "err" with
   | some _ => .diverge "writer-could-not-be-created"
@@ -191,8 +95,6 @@ def handle (l : Line) : Option Verdict :=
   | "trunc" => some (handleTrunc l)
   | "c04" => some (handleC04 l)
   | "abort" => some (verdict [] [])
-  | "sinkok" => some (verdict [] [])      -- C05 under a faulty sink: C-side predicate p_close_ok_implies_file
-  | "sink" => some (handleSink l)
   | _ => none
 
 end Driver.Ops.FileRead
